@@ -97,6 +97,13 @@ package test
 //@   ensures [d1.other] !br.conn0.closing && !br.conn1.closing && fromID != 0 ==> sameSeq(br.queue0to1, atlock(br.queue0to1)) && sameSeq(br.stack0, atlock(br.stack0))
 
 // scripted impairments: counters are set as given; Reorder mirrors the queue; Drop removes n messages from offset
+//@ func (br *Bridge) Filter(fromID int, cb func([]byte) bool)
+//@   ensures [set] (fromID == 0 ==> br.filterCB0 == cb && br.filterCB1 == atlock(br.filterCB1)) && (fromID != 0 ==> br.filterCB1 == cb && br.filterCB0 == atlock(br.filterCB0))
+//@   ensures [rest] sameSeq(br.queue0to1, atlock(br.queue0to1)) && sameSeq(br.queue1to0, atlock(br.queue1to0)) && sameSeq(br.stack0, atlock(br.stack0)) && sameSeq(br.stack1, atlock(br.stack1)) &&
+//@            br.dropNWrites0 == atlock(br.dropNWrites0) && br.dropNWrites1 == atlock(br.dropNWrites1) && br.reorderNWrites0 == atlock(br.reorderNWrites0) && br.reorderNWrites1 == atlock(br.reorderNWrites1)
+//@ func (br *Bridge) Len(fromID int) (n int)
+//@   ensures [len] (fromID == 0 ==> n == atlock(len(br.queue0to1))) && (fromID != 0 ==> n == atlock(len(br.queue1to0)))
+//@   ensures [rest] sameSeq(br.queue0to1, atlock(br.queue0to1)) && sameSeq(br.queue1to0, atlock(br.queue1to0)) && sameSeq(br.stack0, atlock(br.stack0)) && sameSeq(br.stack1, atlock(br.stack1))
 //@ func (br *Bridge) DropNextNWrites(fromID int, n int)
 //@   ensures [set] (fromID == 0 ==> br.dropNWrites0 == n && br.dropNWrites1 == atlock(br.dropNWrites1)) && (fromID != 0 ==> br.dropNWrites1 == n && br.dropNWrites0 == atlock(br.dropNWrites0))
 //@   ensures [rest] sameSeq(br.queue0to1, atlock(br.queue0to1)) && sameSeq(br.queue1to0, atlock(br.queue1to0)) && sameSeq(br.stack0, atlock(br.stack0)) && sameSeq(br.stack1, atlock(br.stack1)) &&
@@ -145,5 +152,5 @@ package test
 //@   ensures [count] n == (atlock(len(br.queue0to1)) - len(br.queue0to1)) + (atlock(len(br.queue1to0)) - len(br.queue1to0))
 //@   ensures [rest] sameSeq(br.stack0, atlock(br.stack0)) && sameSeq(br.stack1, atlock(br.stack1))
 
-//@ property C18: NewBridge, inverse, drop, Bridge.Tick, Bridge.Push, Bridge.DropNextNWrites, Bridge.ReorderNextNWrites, Bridge.Reorder, Bridge.Drop, bridgeConn.Write
+//@ property C18: NewBridge, inverse, drop, Bridge.Tick, Bridge.Push, Bridge.DropNextNWrites, Bridge.ReorderNextNWrites, Bridge.Reorder, Bridge.Drop, bridgeConn.Write, Bridge.Filter, Bridge.Len
 //@ property C10: NewBridge, bridgeConn.Read, bridgeConn.SetReadDeadline
